@@ -45,9 +45,61 @@ package txhash
 
 // The id hashes the stream WITH the signatures, the signed digest the stream without them;
 // both are functions of the transaction (used as such in the verification contracts).
-//@ func txDigestHashV2
+// The version 3 id is the double hash of a length-prefixed binary stream; which field goes
+// into the stream at which place is fixed item by item as for the JSON stream above, and the
+// two signature lists go through the same helper, the initiator's first.
+//@ func encoder.Encode
 //@   noverify
+//@   noeffects
+//@ func txDigestHashV2
+//@   property C08 C07
 //@   pure
+//@   at encoder.Encode#1 assert v3_item_1_is_len_tx_TxInputs: $0 == boxed(len(tx.TxInputs))
+//@   at encoder.Encode#2 assert v3_item_2_is_input_RefTxid: $0 == boxed(input.RefTxid)
+//@   at encoder.Encode#3 assert v3_item_3_is_input_RefOffset: $0 == boxed(input.RefOffset)
+//@   at encoder.Encode#4 assert v3_item_4_is_input_FromAddr: $0 == boxed(input.FromAddr)
+//@   at encoder.Encode#5 assert v3_item_5_is_input_Amount: $0 == boxed(input.Amount)
+//@   at encoder.Encode#6 assert v3_item_6_is_input_FrozenHeight: $0 == boxed(input.FrozenHeight)
+//@   at encoder.Encode#7 assert v3_item_7_is_len_tx_TxOutputs: $0 == boxed(len(tx.TxOutputs))
+//@   at encoder.Encode#8 assert v3_item_8_is_output_Amount: $0 == boxed(output.Amount)
+//@   at encoder.Encode#9 assert v3_item_9_is_output_ToAddr: $0 == boxed(output.ToAddr)
+//@   at encoder.Encode#10 assert v3_item_10_is_output_FrozenHeight: $0 == boxed(output.FrozenHeight)
+//@   at encoder.Encode#11 assert v3_item_11_is_tx_Desc: $0 == boxed(tx.Desc)
+//@   at encoder.Encode#12 assert v3_item_12_is_tx_Coinbase: $0 == boxed(tx.Coinbase)
+//@   at encoder.Encode#13 assert v3_item_13_is_tx_Nonce: $0 == boxed(tx.Nonce)
+//@   at encoder.Encode#14 assert v3_item_14_is_tx_Timestamp: $0 == boxed(tx.Timestamp)
+//@   at encoder.Encode#15 assert v3_item_15_is_tx_Version: $0 == boxed(tx.Version)
+//@   at encoder.Encode#16 assert v3_item_16_is_tx_Autogen: $0 == boxed(tx.Autogen)
+//@   at encoder.Encode#17 assert v3_item_17_is_len_tx_TxInputsExt: $0 == boxed(len(tx.TxInputsExt))
+//@   at encoder.Encode#18 assert v3_item_18_is_inputExt_Bucket: $0 == boxed(input.Bucket)
+//@   at encoder.Encode#19 assert v3_item_19_is_inputExt_Key: $0 == boxed(input.Key)
+//@   at encoder.Encode#20 assert v3_item_20_is_inputExt_RefTxid: $0 == boxed(input.RefTxid)
+//@   at encoder.Encode#21 assert v3_item_21_is_inputExt_RefOffset: $0 == boxed(input.RefOffset)
+//@   at encoder.Encode#22 assert v3_item_22_is_len_tx_TxOutputsExt: $0 == boxed(len(tx.TxOutputsExt))
+//@   at encoder.Encode#23 assert v3_item_23_is_outputExt_Bucket: $0 == boxed(output.Bucket)
+//@   at encoder.Encode#24 assert v3_item_24_is_outputExt_Key: $0 == boxed(output.Key)
+//@   at encoder.Encode#25 assert v3_item_25_is_outputExt_Value: $0 == boxed(output.Value)
+//@   at encoder.Encode#26 assert v3_item_26_is_len_tx_ContractRequests: $0 == boxed(len(tx.ContractRequests))
+//@   at encoder.Encode#27 assert v3_item_27_is_req_ModuleName: $0 == boxed(req.ModuleName)
+//@   at encoder.Encode#28 assert v3_item_28_is_req_ContractName: $0 == boxed(req.ContractName)
+//@   at encoder.Encode#29 assert v3_item_29_is_req_MethodName: $0 == boxed(req.MethodName)
+//@   at encoder.Encode#30 assert v3_item_30_is_req_Args: $0 == boxed(req.Args)
+//@   at encoder.Encode#31 assert v3_item_31_is_len_req_ResourceLimits: $0 == boxed(len(req.ResourceLimits))
+//@   at encoder.Encode#33 assert v3_item_33_is_limit_Limit: $0 == boxed(limit.Limit)
+//@   at encoder.Encode#34 assert v3_item_34_is_req_Amount: $0 == boxed(req.Amount)
+//@   at encoder.Encode#35 assert v3_item_35_is_tx_Initiator: $0 == boxed(tx.Initiator)
+//@   at encoder.Encode#36 assert v3_item_36_is_len_tx_AuthRequire: $0 == boxed(len(tx.AuthRequire))
+//@   at encoder.Encode#37 assert v3_item_37_is_addr: $0 == boxed(addr)
+//@   at $1:encoder.Encode#1 assert v3_signature_list_length_first: $0 == boxed(len(sigs))
+//@   at $1:encoder.Encode#2 assert v3_signature_item_1_is_sig_PublicKey: $0 == boxed(sig.PublicKey)
+//@   at $1:encoder.Encode#3 assert v3_signature_item_2_is_sig_Sign: $0 == boxed(sig.Sign)
+//@   at encoder.Encode#38 assert v3_item_38_is_len_XuperSign_PublicKeys: tx.XuperSign != nil ==> $0 == boxed(len(tx.XuperSign.PublicKeys))
+//@   at encoder.Encode#39 assert v3_item_39_is_pubkey: $0 == boxed(pubkey)
+//@   at encoder.Encode#40 assert v3_item_40_is_XuperSign_Signature: tx.XuperSign != nil ==> $0 == boxed(tx.XuperSign.Signature)
+//@   at encoder.Encode#41 assert v3_item_41_is_HDInfo_HdPublicKey: tx.HDInfo != nil ==> $0 == boxed(tx.HDInfo.HdPublicKey)
+//@   at encoder.Encode#42 assert v3_item_42_is_HDInfo_OriginalHash: tx.HDInfo != nil ==> $0 == boxed(tx.HDInfo.OriginalHash)
+//@   at txDigestHashV2$1#1 assert v3_first_signature_list_is_the_initiators: includeSigns && $0 == tx.InitiatorSigns
+//@   at txDigestHashV2$1#2 assert v3_second_signature_list_is_the_auth_require_signatures: includeSigns && $0 == tx.AuthRequireSigns
 //@ func MakeTransactionID
 //@   property C08 C07
 //@   pure
